@@ -209,6 +209,8 @@ SITES = [
      ["find_subject(s, &swt[m + 1..])", "find_subject(s, &swt[..m])"]),
     # quoted triple: one level per nesting
     ("pretty::write_term", "turtle/src/serializer/_pretty.rs", "write_term", "Prettifier", ["self.write_term(t)"]),
+    # skips consecutive duplicates (today: a `loop`)
+    ("pretty::dedup_next", "turtle/src/serializer/_pretty.rs", "next", "DedupIterator", []),
     ("cnq::nq", "c14n/src/_cnq.rs", "nq", None, ["nq(term.datatype().unwrap(), buffer)", "nq(subterm, buffer)"]),
     ("term::cmp", "api/src/term.rs", "cmp", "Term",
      ["Term::cmp(&spo1[0], spo2[0])", "Term::cmp(&spo1[1], spo2[1])", "Term::cmp(&spo1[2], spo2[2])"]),
